@@ -1453,10 +1453,24 @@ class Interp:
             fnode: Any = fr.fi.node
             mod = fr.fi.module
             qual = fr.fi.qualname
-            if not force_inline and (self.depth >= self.max_depth or not self.hooks.inline(self, fr.fi)
-                                     or self.call_stack.count(qual) >= self.max_recursion):
+            # A function that did not exist when the checks were written (not in reference/known_functions.json) is a helper
+            # extracted by a later refactoring: nobody decided to treat it as opaque, so it is transparent (always inlined, and it
+            # does not count towards the inlining depth).  Opaqueness is a decision about a *known* function only.
+            fresh = self.is_fresh(qual)
+            if fresh and self.call_stack.count(qual) >= max(self.max_recursion, 1) + 1:
+                fresh = False
+            if not force_inline and not fresh and (self.depth >= self.max_depth or not self.hooks.inline(self, fr.fi)
+                                                   or self.call_stack.count(qual) >= self.max_recursion):
                 a = ([fr.self_val] if fr.bound else []) + list(args)
                 return self.opaque_call(qual, a, kwargs)
+            if fresh:
+                self.depth -= 1  # compensated below: a fresh helper is transparent for the depth bound
+                try:
+                    if _has_yield(fnode):
+                        return self.call_generator(fr, args, kwargs, node)
+                    return self._run_body(fr, fnode, mod, qual, args, kwargs)
+                finally:
+                    self.depth += 1
             if _has_yield(fnode):
                 return self.call_generator(fr, args, kwargs, node)
         else:
@@ -1465,6 +1479,24 @@ class Interp:
             qual = '<local>.' + getattr(fnode, 'name', '<lambda>')
             if isinstance(fnode, ast.FunctionDef) and (self.call_stack.count(qual) >= self.max_recursion or self.depth >= self.max_depth + 4 + self.max_recursion):
                 return self.opaque_call(qual, list(args), kwargs)
+        return self._run_body(fr, fnode, mod, qual, args, kwargs)
+
+    _known_functions: Optional[set] = None
+
+    def is_fresh(self, qual: str) -> bool:
+        cls = type(self)
+        if cls._known_functions is None:
+            import json as _j
+            import os as _os
+            path = _os.path.join(_os.path.dirname(_os.path.abspath(__file__)), 'reference', 'known_functions.json')
+            try:
+                with open(path) as f:
+                    cls._known_functions = set(_j.load(f)['functions'])
+            except OSError:
+                cls._known_functions = set()
+        return bool(cls._known_functions) and qual not in cls._known_functions
+
+    def _run_body(self, fr: FuncRef, fnode: Any, mod: Any, qual: str, args: List[Any], kwargs: Dict[str, Any]) -> Any:
         env = Env(mod, fr.closure, fr.fi.cls if fr.fi else None)
         a = ([fr.self_val] if fr.bound else []) + list(args)
         self.bind_params(fnode.args, a, kwargs, env, fr)
